@@ -37,6 +37,9 @@
      try_captures_id / global_captures_id : whether the per-try / global timer function compares the object's current proxy ID with
                              the ID captured when the timer was ARMED (a variable of the arming function, outside the closure);
                              otherwise it loads the ID inside the closure and compares it with itself
+     on_reset_checks_done : whether downStream.OnResetStream itself returns when upstreamProcessDone is set (the tree tests that flag
+                             only in proxy.onDownstreamEvent, for the streams of a closing connection); downStream.resetStream()
+                             sets the flag BEFORE it resets the client stream and relies on the synchronous OnResetStream callback
      res_counts_unlimited : whether resource.Increase / Decrease (cluster resource manager) count also while no limit is configured
                              (max == 0); CanCreate is true then in either case *)
 From Coq Require Import List ZArith Bool Arith Lia.
@@ -64,7 +67,7 @@ Record srcp := { loop_bound : nat; min_budget : nat; reset_guarded : bool; direc
   put_resets_cursor : bool; retry_checks_direct : bool; retry_refinalizes : bool; timers_reset_stream : bool; hijack_clears_body : bool;
   retry_clears_reuse : bool; setupretry_clears_reuse : bool; global_lost_cas_stops : bool; append_error_continues : bool;
   reset_excludes_global : bool; reset_reads_status : bool; res_counts_unlimited : bool;
-  send_once_per_upreq : bool; started_marked_first : bool; try_captures_id : bool; global_captures_id : bool;
+  send_once_per_upreq : bool; started_marked_first : bool; try_captures_id : bool; global_captures_id : bool; on_reset_checks_done : bool;
   reason_code : reason -> Z }.
 
 Record cfg := {
@@ -85,16 +88,19 @@ Record cfg := {
   c_http : bool;
   (* host selection: from the k-th NewStream call on (k = number of attempts made so far) no healthy host / no cluster is found
      any more (hosts taken out of the cluster while the request is in flight); None = hosts stay *)
-  c_nohost_from : option nat
+  c_nohost_from : option nat;
+  (* the upstream stream layer keeps the client stream registered after it has handed the response over: a reset of that stream
+     (connection closed right after the response) is still delivered to the proxy *)
+  c_late_reset : bool
 }.
 
 #[export] Instance eta_cfg : Settable _ := settable! Build_cfg
   <c_oneway; c_data; c_trailers; c_route; c_nhosts; c_retry_on; c_num_retries; c_codes; c_try_timeout; c_max_retries; c_recv; c_send;
-   c_pool; c_delay; c_snd_err_hdr; c_snd_err_data; c_snd_err_trl; c_http; c_nohost_from>.
+   c_pool; c_delay; c_snd_err_hdr; c_snd_err_data; c_snd_err_trl; c_http; c_nohost_from; c_late_reset>.
 #[export] Instance eta_srcp : Settable _ := settable! Build_srcp
   <loop_bound; min_budget; reset_guarded; direct_clears_again; direct_cancels_retry; direct_resets_upstream; put_resets_cursor; retry_checks_direct; retry_refinalizes;
    timers_reset_stream; hijack_clears_body; retry_clears_reuse;
-   setupretry_clears_reuse; global_lost_cas_stops; append_error_continues; reset_excludes_global; reset_reads_status; res_counts_unlimited; send_once_per_upreq; started_marked_first; try_captures_id; global_captures_id; reason_code>.
+   setupretry_clears_reuse; global_lost_cas_stops; append_error_continues; reset_excludes_global; reset_reads_status; res_counts_unlimited; send_once_per_upreq; started_marked_first; try_captures_id; global_captures_id; on_reset_checks_done; reason_code>.
 
 Inductive rkind := KUp | KHijack | KDirect.
 Record resp := { r_kind : rkind; r_code : Z; r_data : bool; r_trailers : bool;
@@ -305,7 +311,8 @@ Definition on_up_reset (why : reason) : A :=
 
 (* downStream.OnResetStream(reason) *)
 Definition on_down_reset (why : reason) : A :=
-  ite down_reset ret (upd (fun s => s <| down_reset := true |> <| rreason := why |> <| notify := true |>)).
+  ite (fun s => on_reset_checks_done src && process_done s) ret
+ (ite down_reset ret (upd (fun s => s <| down_reset := true |> <| rreason := why |> <| notify := true |>))).
 
 (* downStream.resetStream(): reset the downstream stream; the stream layer calls back OnResetStream synchronously *)
 Definition ds_reset_stream : A :=
@@ -667,7 +674,9 @@ Definition env_step (e : ev) (s : st) : st * list out :=
                <| notify := true |> <| rsp_filtered := false |>, [])
     else (s, [])
   | EvUpReset k why =>
-    if (k =? cur s)%nat && up_sender s && up_alive s then on_up_reset why (s <| up_alive := false |> <| abandoned := true |>) else (s, [])
+    if (k =? cur s)%nat && up_sender s && up_alive s then on_up_reset why (s <| up_alive := false |> <| abandoned := true |>)
+    else if (k =? cur s)%nat && up_sender s && c_late_reset c && negb (c_oneway c) then on_up_reset why s      (* after the response *)
+    else (s, [])
   | EvPerTry k =>
     match try_armed s with
     | Some k' =>
